@@ -12,7 +12,7 @@ RULE = ('random programs (3-9 statements: var/assignment operators/if-else/while
         'representable numbers incl. durations, printed with minimal parentheses per the documented precedence table and '
         'evaluated twice by ConfigCompiler::CompileText + Expression::Evaluate; operator typing matrix (every binary operator '
         'x every pair of operand kinds); precedence pairs (a op1 b op2 c for all operator pairs); scoping/closure/this '
-        'templates; Type objects and typeof (every operand kind x every primitive type, Type fields, constructor calls); union/intersection (0-4 arguments, duplicates, null, scalars, mixed kinds); match() glob patterns x texts, array form with MatchAll/MatchAny/other modes; references (&local/&this member/&global/&unknown/&a.b/&a[i]/&*p/&p, reads, assignments and compound assignments through *p, Reference#get/#set, closures capturing references, invalid operands); const, namespace blocks and using imports (constness rules, scoping inside the block, lookup order local > this > imports in textual order > System > Types > globals, imports that are dictionaries/namespaces/arrays/scalars/null); Json.encode/decode (all operand kinds, nested containers, escapes, malformed texts, nesting limit, round trip); evaluation-order family: else-if chains with 0-4 branches with/without else over overlapping conditions and with probes that log the evaluation order, nested chains, chains as values, argument/array/dictionary/use()/parameter lists with >= 3 elements, ||/&& chains, statement lists, right-nested ternaries, same-operator chains; closure-state family (closures with 0-2 parameters x use-lists of 0-2 variables that read/assign/+= captured variables, redeclare locals, rely on unset body locals, nested closures, recursion through captured function values, each called 2-3 times interleaved with outer mutations); callbacks that resize the array they iterate (map/filter/any/all); loop-mutates-iterated family (for over array / dictionary k=>v / keys() / range(len) / locals / this / globals / a namespace block, while with a container condition, Array#map/filter/any/all/reduce callbacks x body that adds after or before the current key, removes the current / an earlier / a later element, replaces the current / next / a later value, clears, clears and refills, rebinds the variable - directly, through an alias, a called closure or a global - always / on the first / second iteration / at one key, before or after the order-observable log entry, with an iteration counter and a 30-iteration emergency exit; each on the main thread, a 512 KiB thread and a coroutine stack); depth-limit programs (recursion and nesting around 300); recorded crash reproducers; programs broken at a '
+        'templates; Type objects and typeof (every operand kind x every primitive type, Type fields, constructor calls); union/intersection (0-4 arguments, duplicates, null, scalars, mixed kinds); match() glob patterns x texts, array form with MatchAll/MatchAny/other modes; references (&local/&this member/&global/&unknown/&a.b/&a[i]/&*p/&p, reads, assignments and compound assignments through *p, Reference#get/#set, closures capturing references, invalid operands); const, namespace blocks and using imports (constness rules, scoping inside the block, lookup order local > this > imports in textual order > System > Types > globals, imports that are dictionaries/namespaces/arrays/scalars/null); Json.encode/decode (all operand kinds, nested containers, escapes, malformed texts, nesting limit, round trip); evaluation-order family: else-if chains with 0-4 branches with/without else over overlapping conditions and with probes that log the evaluation order, nested chains, chains as values, argument/array/dictionary/use()/parameter lists with >= 3 elements, ||/&& chains, statement lists, right-nested ternaries, same-operator chains; closure-state family (closures with 0-2 parameters x use-lists of 0-2 variables that read/assign/+= captured variables, redeclare locals, rely on unset body locals, nested closures, recursion through captured function values, each called 2-3 times interleaved with outer mutations); callbacks that resize the array they iterate (map/filter/any/all); loop-mutates-iterated family (for over array / dictionary k=>v / keys() / range(len) / locals / this / globals / a namespace block, while with a container condition, Array#map/filter/any/all/reduce callbacks x body that adds after or before the current key, removes the current / an earlier / a later element, replaces the current / next / a later value, clears, clears and refills, rebinds the variable - directly, through an alias, a called closure or a global - always / on the first / second iteration / at one key, before or after the order-observable log entry, with an iteration counter and a 30-iteration emergency exit; each on the main thread, a 512 KiB thread and a coroutine stack); loop-mutated-random (random programs with loops into whose bodies mutations of the iterated collection are injected, preferring - by the extracted model - those whose loop runs at least twice); loops that freeze the iterated container and Array#sort comparators that change the array (expected values, hostile stream); depth-limit programs (recursion and nesting around 300); recorded crash reproducers; programs broken at a '
         'known token (syntax error position); hostile stream: mutated programs, random bytes, deep nesting, deep recursion on '
         'main thread / 512 KiB thread / 256 KiB coroutine stack. Candidates whose model result leaves the exact-number domain '
         'are dropped before the run. non-trivial = program with at least 3 AST nodes whose evaluation did not end in a '
@@ -22,7 +22,7 @@ TRUSTED = ['model: coq/Dsl/DslDefs.v, DslOps.v, DslJson.v, DslEval.v (hand trans
            'match(): the glob matcher is a specification-style recursive matcher; its equality with the backtracking C routine third-party/mmatch match() is compared (patterns x texts), not proved; only 7-bit text without NUL is followed',
            'union/intersection: std::set / std::sort / std::set_intersection over Value::operator< are followed for numbers-only and non-empty-strings-only operands (and the always-throwing number/string mixtures); other mixtures are outside the model',
            'Json: non-integer numbers are followed when their exact decimal expansion has at most 15 significant digits (e <= 6, |m| < 2^26) - there the shortest round-trip text nlohmann prints is that expansion; decoded float tokens when exactly representable',
-           'regex(), cidr_match(), Math.*, DateTime, Function#call/callv, freeze, basename/dirname/escape_shell_arg are NOT modelled (hostile stream / outcome classes only)',
+           'regex(), cidr_match(), Math.*, DateTime, Function#call/callv, freeze, Array#sort with a comparator, basename/dirname/escape_shell_arg are NOT modelled (hostile stream / outcome classes only; for loops that freeze their container and comparators that change the sorted array the expected VALUES are written out in vlib/p_c15.py from the code)',
            'the parser (bison/flex tables) is not modelled: precedence/associativity is COMPARED through the minimal-parenthesis printer in vlib/p_c15.py; PROVED is only that the printer table, the documented table and the %left/%right/%nonassoc declarations of config_parser.yy (all regenerated into Facts_c15.v) agree on the 20 binary operators (C15_precedence_tables_agree)',
            'numbers: the model computes with exact dyadic rationals and aborts outside |m|<2^53; generated programs are screened with the extracted model to stay inside (binary64 is exact there)',
            'error kinds are not compared (only value vs script error vs syntax error): to a program all are one ScriptError; the 300 limit is observed through values (recursion counters)',
